@@ -20,16 +20,62 @@ type config struct {
 }
 
 var (
+	varCfg   = &config{tag: 'V', pk: []string{"a", "b"}, vars: []string{"v"}}
+	funCfg   = &config{tag: 'W', pk: []string{"a", "b"}, funcs: []string{"f"}}
 	smallCfg = &config{tag: 'S', pk: []string{"a", "b"}, vars: []string{"v"}, funcs: []string{"f"}}
 	fullCfg  = &config{tag: 'F', pk: []string{"a", "b", "c"}, vars: []string{"v", "w"}, funcs: []string{"f", "g"}}
+	// seedCfg is the full configuration explored from prepared three-package
+	// states (seeds) instead of from the empty one.
+	seedCfg = &config{tag: 'G', pk: []string{"a", "b", "c"}, vars: []string{"v", "w"}, funcs: []string{"f", "g"}}
 )
+
+// seeds: operation sequences (package.kind.arg) that build the richer
+// three-package states a short history from the empty state cannot reach.
+var seeds = [][]string{
+	// two used packages export the same names
+	{"b.defvar.v", "b.defun.f", "b.export.v", "b.export.f", "c.defvar.v", "c.defun.f", "c.export.v", "c.export.f", "a.use.b", "a.use.c"},
+	// chain a -> b -> c (indirect use)
+	{"c.defvar.v", "c.defun.f", "c.export.v", "c.export.f", "b.use.c", "b.defvar.w", "b.export.w", "a.use.b"},
+	// one exporter with private and exported definitions, two users
+	{"a.defvar.v", "a.export.v", "a.defun.f", "a.export.f", "a.defvar.w", "a.defun.g", "b.use.a", "c.use.a"},
+	// a cycle of uses, each package exporting something different
+	{"a.defvar.v", "a.export.v", "b.defun.f", "b.export.f", "c.defvar.w", "c.export.w", "a.use.b", "b.use.c", "c.use.a"},
+}
+
+// seedOps returns the root operations of the seeded exploration.
+func seedOps(limit int) (out []string) {
+	for i := range seeds {
+		out = append(out, fmt.Sprintf("G%da.seed.%d", limit, i))
+	}
+	return
+}
+
+// expand turns a seed operation into its sequence; any other operation is
+// returned as is.
+func (o op) expand() (out []op) {
+	if o.kind != "seed" {
+		return []op{o}
+	}
+	k, _ := strconv.Atoi(o.arg)
+	for _, s := range seeds[k] {
+		x, _ := parseOp(fmt.Sprintf("%c%d%s", o.cfg.tag, o.limit, s))
+		out = append(out, x)
+	}
+	return
+}
 
 func cfgOf(tag byte) *config {
 	switch tag {
+	case 'V':
+		return varCfg
+	case 'W':
+		return funCfg
 	case 'S':
 		return smallCfg
 	case 'F':
 		return fullCfg
+	case 'G':
+		return seedCfg
 	}
 	return nil
 }
@@ -127,6 +173,9 @@ func parseOp(s string) (o op, ok bool) {
 		ok = 0 <= indexOf(o.cfg.funcs, o.arg)
 	case "export", "unexport":
 		ok = 0 <= indexOf(o.cfg.names(), o.arg)
+	case "seed":
+		k, err := strconv.Atoi(o.arg)
+		ok = err == nil && 0 <= k && k < len(seeds) && o.cfg == seedCfg
 	}
 	return
 }
@@ -155,6 +204,7 @@ type def struct {
 	val    int
 	exp    bool
 	hidden bool // (from the implementation only) entry reachable through p::n only
+	stale  bool // (from the implementation only) orphaned copy of a cell its home package no longer holds
 	cell   int  // (from the implementation only) identity of the underlying cell
 }
 
@@ -382,8 +432,9 @@ func (g *graph) resolveExt(r rules, c, q int, kind byte, n string) set {
 		if c == q { // the statement does not speak of q:n used inside q itself
 			s.add(valStr(d.val))
 		}
-	case d != nil && !d.hidden:
+	case d != nil && !d.hidden: // unbound placeholder: not a definition; inherited names may show through
 		s.add("U")
+		g.inheritedOptional(q, kind, n, s)
 	default:
 		s.add("U")
 		g.inheritedOptional(q, kind, n, s)
@@ -400,6 +451,7 @@ func (g *graph) resolveInt(q int, kind byte, n string) set {
 		s.add(valStr(d.val))
 	case d != nil:
 		s.add("U")
+		g.inheritedOptional(q, kind, n, s)
 	default:
 		s.add("U")
 		g.inheritedOptional(q, kind, n, s)
@@ -566,8 +618,9 @@ func (g *graph) step(m mut, o op) (alts []*graph, mayErr bool) {
 		a := g.clone()
 		any := false
 		for _, kind := range []byte{'v', 'f'} {
-			if d := a.tab(p, kind)[o.arg]; d != nil && !d.hidden {
+			if d := a.tab(p, kind)[o.arg]; d != nil {
 				d.exp = true
+				d.hidden = false
 				any = true
 			}
 		}
@@ -669,22 +722,36 @@ func (g *graph) step(m mut, o op) (alts []*graph, mayErr bool) {
 			a.p[c.q].funcs[o.arg].val = defunVal(p)
 			alts = append(alts, a)
 		}
-		for _, keepPh := range []bool{false, true} {
-			a := g.clone()
-			a.p[p].funcs[o.arg] = &def{val: defunVal(p), exp: exp}
-			if ph != nil && ph.val == unboundVal && !keepPh {
-				delete(a.p[p].vars, o.arg)
-			}
-			if m.defunInUsed {
-				for _, q := range a.p[p].uses {
-					if d := a.p[q].funcs[o.arg]; d != nil {
-						d.val = defunVal(p)
-					}
+		exps := []bool{exp}
+		if !exp {
+			// an exported unbound placeholder inherited from a used package: the
+			// new function may take over the export status of that name (S2)
+			for _, c := range g.inheritedCands(p, 'v', o.arg) {
+				if c.d.val == unboundVal {
+					exps = append(exps, true)
+					break
 				}
 			}
-			alts = append(alts, a)
-			if ph == nil || ph.val != unboundVal {
-				break
+		}
+		keeps := []bool{false}
+		if ph != nil && ph.val == unboundVal {
+			keeps = []bool{false, true}
+		}
+		for _, e := range exps {
+			for _, keepPh := range keeps {
+				a := g.clone()
+				a.p[p].funcs[o.arg] = &def{val: defunVal(p), exp: e}
+				if ph != nil && ph.val == unboundVal && !keepPh {
+					delete(a.p[p].vars, o.arg)
+				}
+				if m.defunInUsed {
+					for _, q := range a.p[p].uses {
+						if d := a.p[q].funcs[o.arg]; d != nil {
+							d.val = defunVal(p)
+						}
+					}
+				}
+				alts = append(alts, a)
 			}
 		}
 	case "makunbound", "fmakunbound":
